@@ -217,7 +217,8 @@ def oracle_C08(meta, kw, res):
     slack = ulp_slack(x0, xend)
     for i, tev in res.get("tev", {}).items():
         for a, b in zip(tev, tev[1:]):
-            if (b - a) * d < 0:
+            # the same root may be reported from both adjacent steps; such twins are ordered only up to root-finder accuracy
+            if (b - a) * d < -(4 * 2.0 ** -52 * max(abs(a), abs(b)) + 4e-12):
                 out.append(("event-order", "events of function %d not in integration order: %r then %r" % (i, a, b)))
                 break
         for v in tev:
